@@ -151,10 +151,19 @@ Lemma res_write_vals : forall st a r idx z w t tmo,
   end.
 Proof.
   intros st a r idx z w t tmo. unfold res_write.
-  destruct r; des; lres_inv; cbn -[upd]; try rewrite upd_same; try apply same_vals_refl;
-    try (apply same_vals_fields; reflexivity).
-  - repeat split; cbn; eauto.
-  - cbn. rewrite upd_same. cbn. repeat split; eauto; rewrite upd_other by assumption; reflexivity.
+  destruct r.
+  - destruct (lres_write idx z w t (a_pc (g_arch st a))) as [[[r' w'] old]|] eqn:E; [|apply same_vals_refl].
+    lres_inv. cbn -[upd]. rewrite upd_same. cbn. repeat split; eauto.
+  - destruct (lres_write idx z w t (a_loc (g_arch st a) k)) as [[[r' w'] old]|] eqn:E; [|apply same_vals_refl].
+    lres_inv. cbn -[upd]. rewrite upd_same. cbn -[upd]. rewrite upd_same. cbn -[upd].
+    repeat split; eauto; rewrite upd_other by assumption; reflexivity.
+  - destruct (lock_busy (g_shr st j) a || lock_tmo (g_shr st j) tmo); [apply same_vals_refl|].
+    destruct (lres_write idx z w t (s_res (g_shr st j))) as [[[r' w'] old]|]; cbn -[upd]; try rewrite upd_same;
+      apply same_vals_fields; reflexivity.
+  - apply same_vals_refl.
+  - destruct idx; cbn -[upd]; try rewrite upd_same; try apply same_vals_refl; apply same_vals_fields; reflexivity.
+  - destruct (g_own st m =? a); [apply same_vals_refl|].
+    destruct idx; [destruct tmo|]; cbn -[upd]; try rewrite upd_same; try apply same_vals_refl; apply same_vals_fields; reflexivity.
 Qed.
 
 Lemma write_vals_pre : forall r idx z A B A', same_vals A B -> write_vals r idx z A A' -> write_vals r idx z B A'.
@@ -170,7 +179,7 @@ Proof.
 Qed.
 
 Lemma write_vals_post : forall r idx z A A' B', a_pc B' = a_pc A' -> a_loc B' = a_loc A' -> write_vals r idx z A A' -> write_vals r idx z A B'.
-Proof. intros r idx z A A' B' H1 H2 W. unfold write_vals in *. rewrite H1, H2. exact W. Qed.
+Proof. intros r idx z A A' B' H1 H2 W. unfold write_vals, same_vals in *. rewrite H1, H2. exact W. Qed.
 
 Lemma do_write_vals : forall st a r idx z tmo,
   match do_write st a r idx z tmo with
@@ -188,4 +197,416 @@ Proof.
     eapply write_vals_post; [| |eapply write_vals_pre; [exact V0|exact V]]; reflexivity.
   - rewrite H in V. eapply same_vals_trans; [exact V|exact V0].
   - rewrite H in V. eapply same_vals_trans; [exact V|exact V0].
+Qed.
+
+(* ---------------------------------------------------------------- commit / abort of the dirty resources *)
+
+Lemma commit_res_vals : forall a st n,
+  let A := g_arch st a in let A' := g_arch (commit_res a st n) a in
+  l_val (a_pc A') = l_val (a_pc A) /\ l_old (a_pc A') = (if rname_eqb n NPc then l_val (a_pc A) else l_old (a_pc A)) /\
+  forall k, l_val (a_loc A' k) = l_val (a_loc A k) /\
+            l_old (a_loc A' k) = (if rname_eqb n (NLoc k) then l_val (a_loc A k) else l_old (a_loc A k)).
+Proof.
+  intros a st n. unfold commit_res.
+  destruct n; cbn [rname_eqb]; des; cbn -[upd]; try rewrite upd_same; cbn -[upd]; repeat split; try reflexivity;
+    try (apply Nat.eqb_eq in Heqb; subst; rewrite upd_same; reflexivity);
+    try (apply Nat.eqb_neq in Heqb; rewrite upd_other by congruence; reflexivity);
+    try (unfold upd; destruct (Nat.eqb_spec k0 k); subst; reflexivity);
+    try (unfold upd; destruct (Nat.eqb_spec k0 k); subst; [rewrite Nat.eqb_refl; reflexivity|
+         destruct (Nat.eqb_spec k k0); [congruence|reflexivity]]).
+Qed.
+
+Lemma abort_res_vals : forall a st n,
+  let A := g_arch st a in let A' := g_arch (abort_res a st n) a in
+  l_old (a_pc A') = l_old (a_pc A) /\ l_val (a_pc A') = (if rname_eqb n NPc then l_old (a_pc A) else l_val (a_pc A)) /\
+  forall k, l_old (a_loc A' k) = l_old (a_loc A k) /\
+            l_val (a_loc A' k) = (if rname_eqb n (NLoc k) then l_old (a_loc A k) else l_val (a_loc A k)).
+Proof.
+  intros a st n. unfold abort_res.
+  destruct n; cbn [rname_eqb]; des; cbn -[upd]; try rewrite upd_same; cbn -[upd]; repeat split; try reflexivity;
+    try (apply Nat.eqb_eq in Heqb; subst; rewrite upd_same; reflexivity);
+    try (apply Nat.eqb_neq in Heqb; rewrite upd_other by congruence; reflexivity);
+    try (unfold upd; destruct (Nat.eqb_spec k0 k); subst; reflexivity);
+    try (unfold upd; destruct (Nat.eqb_spec k0 k); subst; [rewrite Nat.eqb_refl; reflexivity|
+         destruct (Nat.eqb_spec k k0); [congruence|reflexivity]]).
+Qed.
+
+Lemma rname_eqb_false : forall x y, rname_eqb x y = false <-> x <> y.
+Proof.
+  intros x y. split.
+  - intros H E. apply rname_eqb_eq in E. congruence.
+  - intros H. destruct (rname_eqb x y) eqn:E; [apply rname_eqb_eq in E; contradiction|reflexivity].
+Qed.
+
+Lemma rname_eq_dec : forall x y : rname, {x = y} + {x <> y}.
+Proof. decide equality; apply Nat.eq_dec. Qed.
+
+Lemma commit_fold_vals : forall a l st,
+  let A := g_arch st a in let A' := g_arch (fold_left (commit_res a) l st) a in
+  l_val (a_pc A') = l_val (a_pc A) /\
+  (In NPc l -> l_old (a_pc A') = l_val (a_pc A)) /\ (~ In NPc l -> l_old (a_pc A') = l_old (a_pc A)) /\
+  forall k, l_val (a_loc A' k) = l_val (a_loc A k) /\
+            (In (NLoc k) l -> l_old (a_loc A' k) = l_val (a_loc A k)) /\ (~ In (NLoc k) l -> l_old (a_loc A' k) = l_old (a_loc A k)).
+Proof.
+  intros a. induction l as [|n l IH]; intros st; cbn -[commit_res].
+  - repeat split; try reflexivity; intros []. 
+  - specialize (IH (commit_res a st n)). cbn zeta in IH. destruct IH as (I1 & I2 & I3 & I4).
+    destruct (commit_res_vals a st n) as (C1 & C2 & C3).
+    split; [congruence|]. split; [|split].
+    + intros [->|Hin].
+      * destruct (in_dec rname_eq_dec NPc l) as [Hi|Hn].
+        -- rewrite I2 by assumption. assumption.
+        -- rewrite I3 by assumption. rewrite C2. cbn. reflexivity.
+      * rewrite I2 by assumption. assumption.
+    + intros Hn. rewrite I3 by (intros H; apply Hn; right; assumption). rewrite C2.
+      destruct (rname_eqb n NPc) eqn:E; [apply rname_eqb_eq in E; subst; exfalso; apply Hn; left; reflexivity|reflexivity].
+    + intros k. destruct (I4 k) as (J1 & J2 & J3). destruct (C3 k) as (D1 & D2).
+      split; [congruence|]. split.
+      * intros [->|Hin].
+        -- destruct (in_dec rname_eq_dec (NLoc k) l) as [Hi|Hn].
+           ++ rewrite J2 by assumption. assumption.
+           ++ rewrite J3 by assumption. rewrite D2. cbn. rewrite Nat.eqb_refl. reflexivity.
+        -- rewrite J2 by assumption. assumption.
+      * intros Hn. rewrite J3 by (intros H; apply Hn; right; assumption). rewrite D2.
+        destruct (rname_eqb n (NLoc k)) eqn:E; [apply rname_eqb_eq in E; subst; exfalso; apply Hn; left; reflexivity|reflexivity].
+Qed.
+
+Lemma abort_fold_vals : forall a l st,
+  let A := g_arch st a in let A' := g_arch (fold_left (abort_res a) l st) a in
+  l_old (a_pc A') = l_old (a_pc A) /\
+  (In NPc l -> l_val (a_pc A') = l_old (a_pc A)) /\ (~ In NPc l -> l_val (a_pc A') = l_val (a_pc A)) /\
+  forall k, l_old (a_loc A' k) = l_old (a_loc A k) /\
+            (In (NLoc k) l -> l_val (a_loc A' k) = l_old (a_loc A k)) /\ (~ In (NLoc k) l -> l_val (a_loc A' k) = l_val (a_loc A k)).
+Proof.
+  intros a. induction l as [|n l IH]; intros st; cbn -[abort_res].
+  - repeat split; try reflexivity; intros [].
+  - specialize (IH (abort_res a st n)). cbn zeta in IH. destruct IH as (I1 & I2 & I3 & I4).
+    destruct (abort_res_vals a st n) as (C1 & C2 & C3).
+    split; [congruence|]. split; [|split].
+    + intros [->|Hin].
+      * destruct (in_dec rname_eq_dec NPc l) as [Hi|Hn].
+        -- rewrite I2 by assumption. assumption.
+        -- rewrite I3 by assumption. rewrite C2. cbn. reflexivity.
+      * rewrite I2 by assumption. assumption.
+    + intros Hn. rewrite I3 by (intros H; apply Hn; right; assumption). rewrite C2.
+      destruct (rname_eqb n NPc) eqn:E; [apply rname_eqb_eq in E; subst; exfalso; apply Hn; left; reflexivity|reflexivity].
+    + intros k. destruct (I4 k) as (J1 & J2 & J3). destruct (C3 k) as (D1 & D2).
+      split; [congruence|]. split.
+      * intros [->|Hin].
+        -- destruct (in_dec rname_eq_dec (NLoc k) l) as [Hi|Hn].
+           ++ rewrite J2 by assumption. assumption.
+           ++ rewrite J3 by assumption. rewrite D2. cbn. rewrite Nat.eqb_refl. reflexivity.
+        -- rewrite J2 by assumption. assumption.
+      * intros Hn. rewrite J3 by (intros H; apply Hn; right; assumption). rewrite D2.
+        destruct (rname_eqb n (NLoc k)) eqn:E; [apply rname_eqb_eq in E; subst; exfalso; apply Hn; left; reflexivity|reflexivity].
+Qed.
+
+(* ---------------------------------------------------------------- RInv is kept *)
+
+Lemma fold_left_snoc : forall X Y (f : X -> Y -> X) l y x, fold_left f (l ++ [y]) x = f (fold_left f l x) y.
+Proof. intros. rewrite fold_left_app. reflexivity. Qed.
+
+Lemma RInv_ext : forall s0 A B,
+  a_log B = a_log A -> a_elems B = a_elems A -> a_dirty B = a_dirty A -> a_pc B = a_pc A -> a_loc B = a_loc A ->
+  RInv s0 A -> RInv s0 B.
+Proof.
+  intros s0 A B H1 H2 H3 H4 H5 [I1 I2 I3 I4].
+  constructor; unfold committed, current in *; rewrite ?H1, ?H2, ?H3, ?H4, ?H5; assumption.
+Qed.
+
+Lemma cur_fold : forall A A' es,
+  seq_ (committed A') (committed A) ->
+  req (fold_left replay_elem es (committed A, true)) (current A, true) ->
+  req (fold_left replay_elem es (committed A', true)) (current A, true).
+Proof.
+  intros A A' es H1 H2. eapply req_trans; [|exact H2]. apply fold_replay_elem_req. split; [exact H1|reflexivity].
+Qed.
+
+(* a read *)
+Lemma RInv_read : forall s0 st a r idx tmo,
+  RInv s0 (g_arch st a) -> RInv s0 (g_arch (rr_state (do_read st a r idx tmo)) a).
+Proof.
+  intros s0 st a r idx tmo [I1 I2 I3 I4].
+  pose proof (do_read_trace st a r idx tmo) as T. cbn zeta in T.
+  pose proof (do_read_vals st a r idx tmo) as V.
+  pose proof (do_read_value st a r idx tmo) as W.
+  set (A := g_arch st a) in *.
+  assert (Dm : forall n, ~ In n (a_dirty (mark_dirty r A)) -> ~ In n (a_dirty A)).
+  { intros n Hn Hin. apply Hn. apply mark_dirty_in. right. assumption. }
+  destruct (do_read st a r idx tmo) as [st' v|st'|st']; cbn [rr_state] in *.
+  - destruct T as (Tc & Te & Td & _). specialize (W st' v eq_refl).
+    apply ctl_split in Tc. destruct Tc as (_ & _ & _ & _ & _ & _ & _ & _ & Hlog).
+    pose proof V as (V1 & V2 & V3).
+    constructor.
+    + rewrite Hlog. eapply req_trans; [exact I1|]. split; [apply seq_sym; apply same_vals_committed; exact V|reflexivity].
+    + rewrite Te, fold_left_snoc.
+      eapply req_trans; [apply replay_elem_req; apply (cur_fold _ _ _ (same_vals_committed _ _ V) I2)|].
+      assert (G : req (replay_elem (current A, true) (ERead r idx v)) (current A, true)).
+      { unfold replay_elem, current. destruct r; try apply req_refl.
+        - rewrite W. cbn. rewrite val_eqb_refl. apply req_refl.
+        - rewrite W. cbn. rewrite val_eqb_refl. apply req_refl. }
+      eapply req_trans; [exact G|]. split; [apply seq_sym; apply same_vals_current; exact V|reflexivity].
+    + rewrite Td. intros Hn. rewrite V1, V2. apply I3. apply Dm. assumption.
+    + rewrite Td. intros k Hn. destruct (V3 k) as (Va & Vb). rewrite Va, Vb. apply I4. apply Dm. assumption.
+  - destruct T as (Tc & Te & Td & _).
+    apply ctl_split in Tc. destruct Tc as (_ & _ & _ & _ & _ & _ & _ & _ & Hlog).
+    pose proof V as (V1 & V2 & V3).
+    constructor.
+    + rewrite Hlog. eapply req_trans; [exact I1|]. split; [apply seq_sym; apply same_vals_committed; exact V|reflexivity].
+    + rewrite Te. eapply req_trans; [apply (cur_fold _ _ _ (same_vals_committed _ _ V) I2)|]. split; [apply seq_sym; apply same_vals_current; exact V|reflexivity].
+    + rewrite Td. intros Hn. rewrite V1, V2. apply I3. apply Dm. assumption.
+    + rewrite Td. intros k Hn. destruct (V3 k) as (Va & Vb). rewrite Va, Vb. apply I4. apply Dm. assumption.
+  - destruct T as (Tc & Te & Td & _).
+    apply ctl_split in Tc. destruct Tc as (_ & _ & _ & _ & _ & _ & _ & _ & Hlog).
+    pose proof V as (V1 & V2 & V3).
+    constructor.
+    + rewrite Hlog. eapply req_trans; [exact I1|]. split; [apply seq_sym; apply same_vals_committed; exact V|reflexivity].
+    + rewrite Te. eapply req_trans; [apply (cur_fold _ _ _ (same_vals_committed _ _ V) I2)|]. split; [apply seq_sym; apply same_vals_current; exact V|reflexivity].
+    + rewrite Td. intros Hn. rewrite V1, V2. apply I3. apply Dm. assumption.
+    + rewrite Td. intros k Hn. destruct (V3 k) as (Va & Vb). rewrite Va, Vb. apply I4. apply Dm. assumption.
+Qed.
+
+(* a write *)
+Lemma RInv_write : forall s0 st a r idx z tmo,
+  RInv s0 (g_arch st a) -> RInv s0 (g_arch (wr2_state (do_write st a r idx z tmo)) a).
+Proof.
+  intros s0 st a r idx z tmo [I1 I2 I3 I4].
+  pose proof (do_write_trace st a r idx z tmo) as T. cbn zeta in T.
+  pose proof (do_write_vals st a r idx z tmo) as V.
+  set (A := g_arch st a) in *.
+  assert (Dm : forall n, ~ In n (a_dirty (mark_dirty r A)) -> n <> r /\ ~ In n (a_dirty A)).
+  { intros n Hn. split; [intros ->|intros Hin]; apply Hn; apply mark_dirty_in; [left; reflexivity|right; assumption]. }
+  destruct (do_write st a r idx z tmo) as [st'|st'|st']; cbn [wr2_state] in *.
+  - destruct T as (Tc & Te & Td & _).
+    apply ctl_split in Tc. destruct Tc as (_ & _ & _ & _ & _ & _ & _ & _ & Hlog).
+    set (A' := g_arch st' a) in *.
+    destruct r; cbn [write_vals] in V.
+    + (* .pc *)
+      destruct V as (W1 & W2 & (old & W3) & W4).
+      constructor.
+      * rewrite Hlog. eapply req_trans; [exact I1|]. split; [|reflexivity]. split; cbn; [congruence|intros k; destruct (W4 k); congruence].
+      * rewrite Te, fold_left_snoc.
+        assert (Ec : req (fold_left replay_elem (a_elems A) (committed A', true)) (current A, true)).
+        { apply cur_fold; [|exact I2]. split; cbn; [congruence|intros k; destruct (W4 k); congruence]. }
+        eapply req_trans; [apply replay_elem_req; exact Ec|].
+        unfold replay_elem, current, overwritten. fold A. rewrite W3, W2. cbn. rewrite val_eqb_refl.
+        split; [|reflexivity]. split; cbn; [reflexivity|intros k; destruct (W4 k); congruence].
+      * rewrite Td. intros Hn. exfalso. apply Hn. apply mark_dirty_in. left. reflexivity.
+      * rewrite Td. intros k Hn. destruct (Dm _ Hn) as (_ & Hk). destruct (W4 k) as (Wa & Wb). rewrite Wa, Wb. apply I4. assumption.
+    + (* a local variable *)
+      destruct V as (W1 & W2 & W3 & W4 & (old & W5) & W6).
+      assert (Cm : seq_ (committed A) (committed A')).
+      { split; cbn; [congruence|]. intros j. destruct (Nat.eq_dec j k) as [->|Hne]; [congruence|]. destruct (W6 j Hne); congruence. }
+      constructor.
+      * rewrite Hlog. eapply req_trans; [exact I1|]. split; [exact Cm|reflexivity].
+      * rewrite Te, fold_left_snoc.
+        assert (Ec : req (fold_left replay_elem (a_elems A) (committed A', true)) (current A, true)).
+        { apply cur_fold; [apply seq_sym; exact Cm|exact I2]. }
+        eapply req_trans; [apply replay_elem_req; exact Ec|].
+        unfold replay_elem, current, overwritten. fold A. rewrite W5, W4. cbn. rewrite val_eqb_refl.
+        split; [|reflexivity]. split; cbn; [congruence|].
+        intros j. unfold upd. destruct (Nat.eqb_spec j k) as [->|Hne]; [reflexivity|]. destruct (W6 j Hne); congruence.
+      * rewrite Td. intros Hn. destruct (Dm _ Hn) as (_ & Hk). rewrite W1, W2. apply I3. assumption.
+      * rewrite Td. intros j Hn. destruct (Dm _ Hn) as (Hj & Hk).
+        assert (j <> k) by congruence. destruct (W6 j H) as (Wa & Wb). rewrite Wa, Wb. apply I4. assumption.
+    + pose proof V as (V1 & V2 & V3). constructor.
+      * rewrite Hlog. eapply req_trans; [exact I1|]. split; [apply seq_sym; apply same_vals_committed; exact V|reflexivity].
+      * rewrite Te, fold_left_snoc. cbn [replay_elem].
+        eapply req_trans; [apply replay_elem_req; apply (cur_fold _ _ _ (same_vals_committed _ _ V) I2)|].
+        unfold replay_elem, current. split; [apply seq_sym; apply same_vals_current; exact V|reflexivity].
+      * rewrite Td. intros Hn. destruct (Dm _ Hn) as (_ & Hk). rewrite V1, V2. apply I3. assumption.
+      * rewrite Td. intros k Hn. destruct (Dm _ Hn) as (_ & Hk). destruct (V3 k) as (Va & Vb). rewrite Va, Vb. apply I4. assumption.
+    + pose proof V as (V1 & V2 & V3). constructor.
+      * rewrite Hlog. eapply req_trans; [exact I1|]. split; [apply seq_sym; apply same_vals_committed; exact V|reflexivity].
+      * rewrite Te, fold_left_snoc. cbn [replay_elem].
+        eapply req_trans; [apply replay_elem_req; apply (cur_fold _ _ _ (same_vals_committed _ _ V) I2)|].
+        unfold replay_elem, current. split; [apply seq_sym; apply same_vals_current; exact V|reflexivity].
+      * rewrite Td. intros Hn. destruct (Dm _ Hn) as (_ & Hk). rewrite V1, V2. apply I3. assumption.
+      * rewrite Td. intros k Hn. destruct (Dm _ Hn) as (_ & Hk). destruct (V3 k) as (Va & Vb). rewrite Va, Vb. apply I4. assumption.
+    + pose proof V as (V1 & V2 & V3). constructor.
+      * rewrite Hlog. eapply req_trans; [exact I1|]. split; [apply seq_sym; apply same_vals_committed; exact V|reflexivity].
+      * rewrite Te, fold_left_snoc. cbn [replay_elem].
+        eapply req_trans; [apply replay_elem_req; apply (cur_fold _ _ _ (same_vals_committed _ _ V) I2)|].
+        unfold replay_elem, current. split; [apply seq_sym; apply same_vals_current; exact V|reflexivity].
+      * rewrite Td. intros Hn. destruct (Dm _ Hn) as (_ & Hk). rewrite V1, V2. apply I3. assumption.
+      * rewrite Td. intros k Hn. destruct (Dm _ Hn) as (_ & Hk). destruct (V3 k) as (Va & Vb). rewrite Va, Vb. apply I4. assumption.
+    + pose proof V as (V1 & V2 & V3). constructor.
+      * rewrite Hlog. eapply req_trans; [exact I1|]. split; [apply seq_sym; apply same_vals_committed; exact V|reflexivity].
+      * rewrite Te, fold_left_snoc. cbn [replay_elem].
+        eapply req_trans; [apply replay_elem_req; apply (cur_fold _ _ _ (same_vals_committed _ _ V) I2)|].
+        unfold replay_elem, current. split; [apply seq_sym; apply same_vals_current; exact V|reflexivity].
+      * rewrite Td. intros Hn. destruct (Dm _ Hn) as (_ & Hk). rewrite V1, V2. apply I3. assumption.
+      * rewrite Td. intros k Hn. destruct (Dm _ Hn) as (_ & Hk). destruct (V3 k) as (Va & Vb). rewrite Va, Vb. apply I4. assumption.
+  - destruct T as (Tc & Te & Td & _).
+    apply ctl_split in Tc. destruct Tc as (_ & _ & _ & _ & _ & _ & _ & _ & Hlog).
+    pose proof V as (V1 & V2 & V3).
+    constructor.
+    + rewrite Hlog. eapply req_trans; [exact I1|]. split; [apply seq_sym; apply same_vals_committed; exact V|reflexivity].
+    + rewrite Te. eapply req_trans; [apply (cur_fold _ _ _ (same_vals_committed _ _ V) I2)|]. split; [apply seq_sym; apply same_vals_current; exact V|reflexivity].
+    + rewrite Td. intros Hn. destruct (Dm _ Hn) as (_ & Hk). rewrite V1, V2. apply I3. assumption.
+    + rewrite Td. intros k Hn. destruct (Dm _ Hn) as (_ & Hk). destruct (V3 k) as (Va & Vb). rewrite Va, Vb. apply I4. assumption.
+  - destruct T as (Tc & Te & Td & _).
+    apply ctl_split in Tc. destruct Tc as (_ & _ & _ & _ & _ & _ & _ & _ & Hlog).
+    pose proof V as (V1 & V2 & V3).
+    constructor.
+    + rewrite Hlog. eapply req_trans; [exact I1|]. split; [apply seq_sym; apply same_vals_committed; exact V|reflexivity].
+    + rewrite Te. eapply req_trans; [apply (cur_fold _ _ _ (same_vals_committed _ _ V) I2)|]. split; [apply seq_sym; apply same_vals_current; exact V|reflexivity].
+    + rewrite Td. intros Hn. destruct (Dm _ Hn) as (_ & Hk). rewrite V1, V2. apply I3. assumption.
+    + rewrite Td. intros k Hn. destruct (Dm _ Hn) as (_ & Hk). destruct (V3 k) as (Va & Vb). rewrite Va, Vb. apply I4. assumption.
+Qed.
+
+(* between attempts: everything committed, nothing pending *)
+Record RPre (s0 : rstore) (A : arch) : Prop := mkRPre {
+  rp_log : req (replay_log s0 (a_log A)) (committed A, true);
+  rp_elems : a_elems A = [];
+  rp_dirty : a_dirty A = [];
+  rp_pc : l_val (a_pc A) = l_old (a_pc A);
+  rp_loc : forall k, l_val (a_loc A k) = l_old (a_loc A k) }.
+
+Lemma replay_log_snoc : forall s0 log e, replay_log s0 (log ++ [e]) = replay_event (replay_log s0 log) e.
+Proof. intros. unfold replay_log. apply fold_left_snoc. Qed.
+
+Lemma RPre_commit : forall s0 st a,
+  RInv s0 (g_arch st a) -> RPre s0 (g_arch (do_commit st a) a).
+Proof.
+  intros s0 st a [I1 I2 I3 I4]. unfold do_commit.
+  set (A := g_arch st a) in *.
+  destruct (commit_fold_frame a (a_dirty A) st) as (F & _).
+  destruct (commit_fold_vals a (a_dirty A) st) as (C1 & C2 & C3 & C4). fold A in C1, C2, C3, C4.
+  set (st1 := fold_left (commit_res a) (a_dirty A) st) in *.
+  set (A1 := g_arch st1 a) in *.
+  apply trc_split in F. destruct F as (Fc & _ & Fe & Fd & _).
+  apply ctl_split in Fc. destruct Fc as (_ & _ & _ & _ & _ & _ & _ & _ & Flog).
+  assert (Cm : seq_ (current A) (committed A1)).
+  { split; cbn.
+    - destruct (in_dec rname_eq_dec NPc (a_dirty A)) as [Hi|Hn]; [rewrite C2 by assumption; reflexivity|].
+      rewrite C3 by assumption. apply I3. assumption.
+    - intros k. destruct (C4 k) as (D1 & D2 & D3).
+      destruct (in_dec rname_eq_dec (NLoc k) (a_dirty A)) as [Hi|Hn]; [rewrite D2 by assumption; reflexivity|].
+      rewrite D3 by assumption. apply I4. assumption. }
+  unfold commit_event. rewrite g_arch_set_same. fold A1.
+  constructor; cbn.
+  - rewrite fold_left_snoc. fold (replay_log s0 (a_log A1)). rewrite Flog. fold A.
+    eapply req_trans; [apply replay_event_req; exact I1|].
+    unfold replay_event. cbn [e_elems e_abort]. rewrite Fe. fold A.
+    destruct (fold_left replay_elem (a_elems A) (committed A, true)) as [t b] eqn:E.
+    destruct I2 as [J1 J2]. cbn in J1, J2. subst b. split; [|reflexivity]. cbn.
+    eapply seq_trans; [exact J1|exact Cm].
+  - reflexivity.
+  - reflexivity.
+  - destruct Cm as (M1 & M2). cbn in M1. congruence.
+  - intros k. destruct Cm as (M1 & M2). cbn in M2. destruct (C4 k) as (D1 & _). rewrite D1. apply M2.
+Qed.
+
+Lemma RPre_abort : forall s0 st a,
+  RInv s0 (g_arch st a) -> RPre s0 (g_arch (do_abort st a) a).
+Proof.
+  intros s0 st a [I1 I2 I3 I4]. unfold do_abort.
+  set (A := g_arch st a) in *.
+  destruct (abort_fold_frame a (a_dirty A) st) as (F & _).
+  destruct (abort_fold_vals a (a_dirty A) st) as (C1 & C2 & C3 & C4). fold A in C1, C2, C3, C4.
+  set (st1 := fold_left (abort_res a) (a_dirty A) st) in *.
+  set (A1 := g_arch st1 a) in *.
+  apply trc_split in F. destruct F as (Fc & _ & Fe & Fd & _).
+  apply ctl_split in Fc. destruct Fc as (_ & _ & _ & _ & _ & _ & _ & _ & Flog).
+  assert (Cm : seq_ (committed A) (committed A1)).
+  { split; cbn; [congruence|]. intros k. destruct (C4 k) as (D1 & _). congruence. }
+  unfold commit_event. rewrite g_arch_set_same. fold A1.
+  constructor; cbn.
+  - rewrite fold_left_snoc. fold (replay_log s0 (a_log A1)). rewrite Flog. fold A.
+    eapply req_trans; [apply replay_event_req; exact I1|].
+    unfold replay_event. cbn [e_elems e_abort]. rewrite Fe. fold A.
+    destruct (fold_left replay_elem (a_elems A) (committed A, true)) as [t b] eqn:E.
+    destruct I2 as [J1 J2]. cbn in J1, J2. subst b. split; [exact Cm|reflexivity].
+  - reflexivity.
+  - reflexivity.
+  - destruct (in_dec rname_eq_dec NPc (a_dirty A)) as [Hi|Hn]; [rewrite C2 by assumption; congruence|].
+    rewrite C3 by assumption. rewrite C1. apply I3. assumption.
+  - intros k. destruct (C4 k) as (D1 & D2 & D3).
+    destruct (in_dec rname_eq_dec (NLoc k) (a_dirty A)) as [Hi|Hn]; [rewrite D2 by assumption; congruence|].
+    rewrite D3 by assumption. rewrite D1. apply I4. assumption.
+Qed.
+
+Lemma RInv_of_RPre : forall s0 A, RPre s0 A -> RInv s0 A.
+Proof.
+  intros s0 A [P1 P2 P3 P4 P5]. constructor; try assumption.
+  - rewrite P2. cbn. split; [|reflexivity]. split; cbn; [congruence|intros k; symmetry; apply P5].
+  - intros _. assumption.
+  - intros k _. apply P5.
+Qed.
+
+Lemma RInv_begin : forall s0 st a, RPre s0 (g_arch st a) -> RInv s0 (g_arch (begin_attempt st a) a).
+Proof.
+  intros s0 st a P. unfold begin_attempt.
+  destruct P as [P1 P2 P3 P4 P5]. rewrite P2.
+  set (st1 := set_arch st a _).
+  assert (R1 : RInv s0 (g_arch st1 a)).
+  { unfold st1. rewrite g_arch_set_same. eapply RInv_ext; [| | | | |apply RInv_of_RPre; constructor; eassumption]; reflexivity. }
+  pose proof (RInv_read s0 st1 a NPc [] false R1) as R2.
+  destruct (do_read st1 a NPc [] false) as [st2 v|st2|st2]; cbn [rr_state] in R2.
+  - destruct (nth_error _ _); rewrite g_arch_set_same; (eapply RInv_ext; [| | | | |exact R2]; reflexivity).
+  - rewrite g_arch_set_same. eapply RInv_ext; [| | | | |exact R2]; reflexivity.
+  - rewrite g_arch_set_same. eapply RInv_ext; [| | | | |exact R2]; reflexivity.
+Qed.
+
+Lemma RInv_goto : forall s0 st a, RInv s0 (g_arch st a) -> RInv s0 (g_arch (goto_next st a) a).
+Proof.
+  intros s0 st a I. unfold goto_next.
+  set (z := (_ + 1)%Z).
+  pose proof (RInv_write s0 st a NPc [] z false I) as R.
+  destruct (do_write st a NPc [] z false) as [st1|st1|st1]; cbn [wr2_state] in R; rewrite g_arch_set_same;
+    (eapply RInv_ext; [| | | | |exact R]; reflexivity).
+Qed.
+
+Lemma RInv_op : forall s0 st a o tmo, RInv s0 (g_arch st a) -> RInv s0 (g_arch (op_state (do_op st a o tmo)) a).
+Proof.
+  intros s0 st a o tmo I. unfold do_op. destruct o as [r idx|r idx e].
+  - destruct (is_pc r); [exact I|].
+    pose proof (RInv_read s0 st a r idx tmo I) as R. destruct (do_read st a r idx tmo); exact R.
+  - destruct (is_pc r); [exact I|].
+    pose proof (RInv_write s0 st a r idx (eval_expr (g_arch st a) e) tmo I) as R.
+    destruct (do_write st a r idx (eval_expr (g_arch st a) e) tmo); exact R.
+Qed.
+
+Lemma RInv_step : forall s0 st a tmo, RInv s0 (g_arch st a) -> RInv s0 (g_arch (step st (a, tmo)) a).
+Proof.
+  intros s0 st a tmo I. unfold step.
+  destruct (negb (a <? g_n st)); [exact I|].
+  destruct (negb (a_status (g_arch st a) =? 0)); [exact I|].
+  destruct (a_rest (g_arch st a)) as [|o rest].
+  - destruct (a_forced (g_arch st a)); [|destruct tmo].
+    + apply RInv_begin. apply RPre_abort. exact I.
+    + apply RInv_begin. apply RPre_abort. apply RInv_goto. exact I.
+    + apply RInv_begin. apply RPre_commit. apply RInv_goto. exact I.
+  - pose proof (RInv_op s0 st a o tmo I) as R.
+    destruct (do_op st a o tmo) as [st' p|st'|st']; cbn [op_state] in R.
+    + rewrite g_arch_set_same. eapply RInv_ext; [| | | | |exact R]; reflexivity.
+    + apply RInv_begin. apply RPre_abort. exact R.
+    + rewrite g_arch_set_same. eapply RInv_ext; [| | | | |exact R]; reflexivity.
+Qed.
+
+Lemma RPre_init : forall a c, RPre (init_store a c) (arch_init a c).
+Proof.
+  intros a c. constructor; cbn; try reflexivity.
+  split; [|reflexivity]. split; cbn; reflexivity.
+Qed.
+
+Lemma RInv_run : forall c sched a,
+  a < List.length (cf_archs c) ->
+  RInv (init_store a (nth a (cf_archs c) no_arch)) (g_arch (run c sched) a).
+Proof.
+  intros c sched a Ha.
+  apply (run_reach (fun b A => RPre (init_store b (nth b (cf_archs c) no_arch)) A)
+                   (fun b A => RInv (init_store b (nth b (cf_archs c) no_arch)) A)); try assumption.
+  - intros. apply RInv_begin. assumption.
+  - intros. apply RInv_step. assumption.
+  - intros. apply RPre_init.
+Qed.
+
+(* the theorem: the replay of the whole log succeeds *)
+Lemma replay_ok_lemma : forall c sched a,
+  a < List.length (cf_archs c) ->
+  snd (replay_log (init_store a (nth a (cf_archs c) no_arch)) (a_log (g_arch (run c sched) a))) = true.
+Proof.
+  intros c sched a Ha. destruct (RInv_run c sched a Ha) as [[_ H] _ _ _]. exact H.
 Qed.
